@@ -3,11 +3,11 @@ package main
 // Symbolic executor over go/ssa: block/instruction interpreter.
 
 import (
-	"os"
 	"fmt"
 	"go/constant"
 	"go/token"
 	"go/types"
+	"os"
 	"strings"
 
 	"golang.org/x/tools/go/ssa"
